@@ -390,7 +390,10 @@ def run_check(mod, prop, tier, seed, replay_path=None):
             ctx.broken.append("driver binary missing")
         # 5. search when anything broke
         findings = []
-        if ctx.broken or ctx.disagreements:
+        # the failing-input search (real code vs the plain-Python reading of the property) runs when anything broke and, in the
+        # thorough tier, always: a second, model-independent line that also sees what model and code have in common
+        if ctx.broken or ctx.disagreements or (tier == "thorough" and hasattr(mod, "search")):
+            ctx.extra["oracle_search_ran"] = True
             why = {"broken": ctx.broken, "disagreements": [(k, d) for k, d in ctx.disagreements[:20]]}
             try:
                 findings = list(mod.search(ctx, why) or [])
